@@ -304,3 +304,142 @@ Qed.
 Corollary refill_le_filled t c r w :
   0 <= t < 2^63 -> 0 <= r <= c -> c < 2^63 -> 0 <= w < 2^31 -> cells t r w <= cells t c w.
 Proof. intros. apply cells_monotone; lia. Qed.
+
+(* ---------- the filled part is the nearest cell count of the exact quotient ---------- *)
+
+(* relative error of one rounding anywhere in the normal range *)
+Lemma rnd_rel_n x : (bpow radix2 (-1022) <= x)%R -> exists e, (Rabs e <= eps)%R /\ rnd x = (x * (1 + e))%R.
+Proof.
+  intros Hx.
+  destruct (@relative_error_N_FLT_ex radix2 (SpecFloat.emin prec emax) prec Hprec (fun z => negb (Z.even z)) x) as (e & He & Hr).
+  - assert (0 < bpow radix2 (-1022))%R by apply bpow_gt_0.
+    rewrite Rabs_pos_eq by lra. exact Hx.
+  - exists e. split; [|exact Hr].
+    replace eps with (/2 * bpow radix2 (- prec + 1))%R; [exact He|].
+    unfold eps, prec. change (bpow radix2 (- (53) + 1)) with (/ IZR 4503599627370496)%R.
+    change (2^53) with 9007199254740992. field.
+Qed.
+
+Lemma mul_near a b al be : (Rabs (a - 1) <= al -> Rabs (b - 1) <= be -> Rabs (a * b - 1) <= al + be + al * be)%R.
+Proof.
+  intros Ha Hb. replace (a * b - 1)%R with ((a - 1) * (b - 1) + (a - 1) + (b - 1))%R by ring.
+  eapply Rle_trans; [apply Rabs_triang|]. eapply Rle_trans; [apply Rplus_le_compat_r, Rabs_triang|].
+  rewrite Rabs_mult. pose proof (Rabs_pos (a - 1)). pose proof (Rabs_pos (b - 1)). nra.
+Qed.
+
+Lemma inv_near e : (Rabs e <= eps -> Rabs (/ (1 + e) - 1) <= 2 * eps)%R.
+Proof.
+  intros H. apply abs_le_split in H. pose proof eps_pos. pose proof eps_small.
+  assert (P : (0 < 1 + e)%R) by lra.
+  replace (/ (1 + e) - 1)%R with (- e * / (1 + e))%R by (field; lra).
+  pose proof (Rinv_0_lt_compat _ P) as IP.
+  assert (I1 : (/ (1 + e) <= 2)%R).
+  { rewrite <- (Rinv_involutive 2) by lra. apply Rinv_le_contravar; lra. }
+  apply Rabs_le. split; nra.
+Qed.
+
+Lemma five_roundings e0 e1 e2 e3 e4 :
+  (Rabs e0 <= eps -> Rabs e1 <= eps -> Rabs e2 <= eps -> Rabs e3 <= eps -> Rabs e4 <= eps ->
+   Rabs ((1 + e0) * (1 + e1) * (1 + e3) * (1 + e4) / (1 + e2) - 1) <= 7 * eps)%R.
+Proof.
+  intros H0 H1 H2 H3 H4. pose proof eps_pos. pose proof eps_small.
+  assert (A0 : (Rabs ((1 + e0) - 1) <= eps)%R) by (replace (1 + e0 - 1)%R with e0 by ring; exact H0).
+  assert (A1 : (Rabs ((1 + e1) - 1) <= eps)%R) by (replace (1 + e1 - 1)%R with e1 by ring; exact H1).
+  assert (A3 : (Rabs ((1 + e3) - 1) <= eps)%R) by (replace (1 + e3 - 1)%R with e3 by ring; exact H3).
+  assert (A4 : (Rabs ((1 + e4) - 1) <= eps)%R) by (replace (1 + e4 - 1)%R with e4 by ring; exact H4).
+  pose proof (mul_near _ _ _ _ A0 A1) as B1.
+  pose proof (mul_near _ _ _ _ B1 A3) as B2.
+  pose proof (mul_near _ _ _ _ B2 A4) as B3.
+  pose proof (mul_near _ _ _ _ B3 (inv_near e2 H2)) as B4.
+  unfold Rdiv. eapply Rle_trans; [exact B4|]. nra.
+Qed.
+
+Lemma small_normal x : (bpow radix2 (-63) <= x)%R -> (bpow radix2 (-1022) <= x)%R.
+Proof. intros H. apply Rle_trans with (2 := H). apply bpow_le. lia. Qed.
+
+(* what float64(w)*float64(c)/float64(t) is, relative to the exact quotient *)
+Lemma quot_rel t c w : 1 <= t < 2^63 -> 1 <= c < 2^63 -> 1 <= w < 2^63 ->
+  exists d, (Rabs d <= 7 * eps)%R /\ quot t c w = (IZR w * IZR c / IZR t * (1 + d))%R.
+Proof.
+  intros Ht Hc Hw. unfold quot.
+  assert (W1 : (1 <= IZR w)%R) by (apply IZR_le; lia).
+  assert (C1 : (1 <= IZR c)%R) by (apply IZR_le; lia).
+  assert (T1 : (1 <= IZR t)%R) by (apply IZR_le; lia).
+  pose proof (bpow_gt_0 radix2 (-63)) as B63.
+  assert (Bs : (bpow radix2 (-63) <= 1)%R) by (change 1%R with (bpow radix2 0); apply bpow_le; lia).
+  destruct (rnd_rel_n (IZR w)) as (e0 & E0 & R0); [apply small_normal; lra|].
+  destruct (rnd_rel_n (IZR c)) as (e1 & E1 & R1); [apply small_normal; lra|].
+  destruct (rnd_rel_n (IZR t)) as (e2 & E2 & R2); [apply small_normal; lra|].
+  assert (RW : (1 <= rnd (IZR w))%R) by (apply rnd_ge_1; exact W1).
+  assert (RC : (1 <= rnd (IZR c))%R) by (apply rnd_ge_1; exact C1).
+  assert (RT : (1 <= rnd (IZR t))%R) by (apply rnd_ge_1; exact T1).
+  destruct (rnd_rel_n (rnd (IZR w) * rnd (IZR c))) as (e3 & E3 & R3); [apply small_normal; nra|].
+  assert (RP : (1 <= rnd (rnd (IZR w) * rnd (IZR c)))%R) by (apply rnd_ge_1; nra).
+  destruct (rnd_int_bounds t ltac:(lia)) as [_ TU].
+  assert (Qlow : (bpow radix2 (-63) <= rnd (rnd (IZR w) * rnd (IZR c)) / rnd (IZR t))%R).
+  { unfold Rdiv. apply Rle_trans with (1 * / bpow radix2 63)%R.
+    - rewrite Rmult_1_l, <- bpow_opp. apply Rle_refl.
+    - apply Rmult_le_compat; try lra.
+      + apply Rlt_le, Rinv_0_lt_compat, bpow_gt_0.
+      + apply Rinv_le_contravar; lra. }
+  destruct (rnd_rel_n (rnd (rnd (IZR w) * rnd (IZR c)) / rnd (IZR t))) as (e4 & E4 & R4); [apply small_normal; exact Qlow|].
+  exists ((1 + e0) * (1 + e1) * (1 + e3) * (1 + e4) / (1 + e2) - 1)%R. split; [apply five_roundings; assumption|].
+  rewrite R4, R3, R0, R1, R2.
+  assert (N2 : (1 + e2 <> 0)%R).
+  { pose proof eps_small. apply abs_le_split in E2. lra. }
+  field. split; [exact N2|lra].
+Qed.
+
+(* the cell count is the nearest integer to width*current/total, up to the accumulated rounding of five
+   float64 operations: within 1/2 + 7*2^-53 of the exact value, relative to it *)
+Theorem cells_nearest t c w : 1 <= t < 2^63 -> 0 <= c < t -> 0 <= w < 2^31 ->
+  (Rabs (IZR (cells t c w) - IZR w * IZR c / IZR t) <= /2 + IZR w * IZR c / IZR t * (7 * eps))%R.
+Proof.
+  intros Ht Hc Hw.
+  assert (T1 : (1 <= IZR t)%R) by (apply IZR_le; lia).
+  assert (W0 : (0 <= IZR w)%R) by (apply IZR_le; lia).
+  assert (C0 : (0 <= IZR c)%R) by (apply IZR_le; lia).
+  assert (Q0 : (0 <= IZR w * IZR c / IZR t)%R).
+  { apply Rmult_le_pos; [nra|]. apply Rlt_le, Rinv_0_lt_compat. lra. }
+  pose proof eps_pos as EP.
+  rewrite cells_eq_quot by lia.
+  destruct (Z.eq_dec c 0) as [->|Nc].
+  { (* nothing done yet *)
+    unfold quot. rewrite Rmult_0_r. replace (rnd 0) with 0%R by (symmetry; apply rnd_0).
+    rewrite Rmult_0_r, rnd_0. unfold Rdiv. rewrite !Rmult_0_l, rnd_0.
+    replace 0%R with (IZR 0) at 1 by reflexivity. rewrite ZnearestA_IZR. rewrite Rminus_0_r, Rabs_R0. lra. }
+  destruct (Z.eq_dec w 0) as [->|Nw].
+  { unfold quot. replace (rnd (IZR 0)) with 0%R by (symmetry; apply rnd_0).
+    rewrite Rmult_0_l, rnd_0. unfold Rdiv. rewrite !Rmult_0_l, rnd_0.
+    replace 0%R with (IZR 0) at 1 by reflexivity. rewrite ZnearestA_IZR. rewrite Rminus_0_r, Rabs_R0. lra. }
+  destruct (quot_rel t c w) as (d & D & E); try lia.
+  set (q := (IZR w * IZR c / IZR t)%R) in *.
+  pose proof (Znearest_half (Zle_bool 0) (quot t c w)) as Hh.
+  replace (IZR (ZnearestA (quot t c w)) - q)%R with (- (quot t c w - IZR (ZnearestA (quot t c w))) + (quot t c w - q))%R by ring.
+  eapply Rle_trans; [apply Rabs_triang|]. rewrite Rabs_Ropp.
+  apply Rplus_le_compat; [exact Hh|].
+  rewrite E. replace (q * (1 + d) - q)%R with (q * d)%R by ring.
+  rewrite Rabs_mult, (Rabs_pos_eq q Q0). apply Rmult_le_compat_l; assumption.
+Qed.
+
+(* in absolute terms: within half a cell plus less than two millionths of a cell *)
+Corollary cells_nearest_abs t c w : 1 <= t < 2^63 -> 0 <= c < t -> 0 <= w < 2^31 ->
+  (Rabs (IZR (cells t c w) - IZR w * IZR c / IZR t) <= /2 + / 500000)%R.
+Proof.
+  intros Ht Hc Hw. eapply Rle_trans; [apply cells_nearest; assumption|].
+  apply Rplus_le_compat_l.
+  assert (T1 : (1 <= IZR t)%R) by (apply IZR_le; lia).
+  assert (Q1 : (IZR w * IZR c / IZR t <= IZR (2^31))%R).
+  { apply Rle_trans with (IZR w).
+    - unfold Rdiv. rewrite Rmult_assoc. rewrite <- (Rmult_1_r (IZR w)) at 2.
+      apply Rmult_le_compat_l; [apply IZR_le; lia|].
+      apply (Rmult_le_reg_r (IZR t)); [lra|]. rewrite Rmult_assoc, Rinv_l by lra. rewrite Rmult_1_r, Rmult_1_l.
+      apply IZR_le. lia.
+    - apply IZR_le. lia. }
+  assert (Q0 : (0 <= IZR w * IZR c / IZR t)%R).
+  { apply Rmult_le_pos; [apply Rmult_le_pos; apply IZR_le; lia|]. apply Rlt_le, Rinv_0_lt_compat. lra. }
+  unfold eps. change (2^53) with 9007199254740992. change (2^31) with 2147483648 in Q1.
+  apply Rle_trans with (2147483648 * (7 * / 9007199254740992))%R.
+  - apply Rmult_le_compat_r; [lra|exact Q1].
+  - lra.
+Qed.
